@@ -274,6 +274,7 @@ func runC07(seed int64, tier string, sc *Script) map[string]any {
 						pf = s2
 					case 2:
 						tp := dir + ".tar"
+						tarAppended = rng.Intn(2) == 0
 						if err := tarDir(dir, tp); err != nil {
 							panic(err)
 						}
@@ -308,6 +309,11 @@ func runC07(seed int64, tier string, sc *Script) map[string]any {
 	return map[string]any{"exhaustive_push_orders": perms, "exhaustive_nodes": exhaustiveN}
 }
 
+// tarAppended (set around a call of tarDir): the archive looks like one that was updated by
+// appending (tar -r): it begins with a superseded index.json that lists nothing, and the
+// current one comes later; a later entry of the same name replaces an earlier one.
+var tarAppended bool
+
 func tarDir(dir, out string) error {
 	f, err := os.Create(out)
 	if err != nil {
@@ -315,6 +321,15 @@ func tarDir(dir, out string) error {
 	}
 	defer f.Close()
 	tw := tar.NewWriter(f)
+	if tarAppended {
+		old := []byte(`{"schemaVersion":2,"manifests":[]}`)
+		if err := tw.WriteHeader(&tar.Header{Name: "index.json", Mode: 0o644, Size: int64(len(old)), Typeflag: tar.TypeReg}); err != nil {
+			return err
+		}
+		if _, err := tw.Write(old); err != nil {
+			return err
+		}
+	}
 	err = filepath.WalkDir(dir, func(p string, d fs.DirEntry, err error) error {
 		if err != nil {
 			return err
